@@ -6,6 +6,8 @@ TRUSTED = [
     "(harness/cmd/c17coll) — not a translation; callbacks are the families cmpk/predk/keyk/contk mirrored by hand in Go",
     "package sort (sort.Slice / sort.SliceStable) and Go map iteration are modelled by their specification (a stable sort; any order)",
     "Go harness + generators + brute-force monitors (harness/cmd/c17coll, harness/vh), bin/check, lib/vlib.py",
+    "capacity and aliasing of slices are judged by the Go monitors only (address ranges via unsafe.SliceData; Go's non-moving heap); "
+    "the Coq model works on values",
 ]
 HARNESSES = [{"pkg": "c17coll", "sub": "coll"}]
 MANIFEST = {
@@ -16,7 +18,10 @@ MANIFEST = {
             "containers; min/max/find return the first extremal/matching member; ordered map loops visit a sorted permutation of the map's "
             "own entries up to the first false; topological sort (any map order) puts every item before its dependencies and errors exactly "
             "on cycles; random no-repeat choices and shuffles pass verified checkers. Every run compares 125 real exported functions with the "
-            "models on exhaustive small scopes plus random inputs and re-reads every argument after every call.",
+            "models on exhaustive small scopes plus random inputs and re-reads every argument after every call; every call with a slice "
+            "argument is also made with slices that are prefixes of longer arrays (sentinels behind len): the whole backing arrays "
+            "must be unchanged and slice results must not share memory with an argument unless the helper is in-place / documented "
+            "to hand back (part of) its argument.",
     "note": "models are hand-written (tied by differential runs, not a translation); sort.Slice and map iteration order are modelled by "
             "their specification; 7 small repairs in fixes/C17-*.patch are assumed applied (on the unrepaired tree the check reports each "
             "defect as a VIOLATION with a replay file)",
